@@ -99,6 +99,29 @@ def check_name(case: Tuple[str, bool]) -> Tuple[Optional[Dict[str, Any]], str]:
     if bad:
         return ({"what": f"C19 service_type_name({name!r}, strict={strict}): {bad}", "replay": {"kind": "name"},
                  "signature": {"check": "verdict"}}, "mismatch")
+    if not strict and want in (nm.ACCEPT, nm.REJECT):
+        # the same verdict through the constructor of a service description (which validates non-strictly): built with
+        # the type the name ends in - the validator's own result, or the last three labels when those are a plain type
+        from zeroconf import ServiceInfo
+        type_ = result if want == nm.ACCEPT else None
+        if type_ is None:
+            tail = ".".join(name.split(".")[-4:])
+            if tail != name and name.endswith("." + tail) and nm.verdict(tail, False) == (nm.ACCEPT, tail):
+                type_ = tail
+        if type_ is not None:
+            try:
+                ServiceInfo(type_, name, 80)
+                built = True
+            except BadTypeInNameException:
+                built = False
+            except Exception as e:  # noqa: BLE001
+                return ({"what": f"C19 ServiceInfo({type_!r}, {name!r}) raised {type(e).__name__}: {e}",
+                         "replay": {"kind": "name"}, "signature": {"check": "other-exception", "exc": type(e).__name__}},
+                        "other-exception")
+            if built != (want == nm.ACCEPT):
+                return ({"what": f"C19 ServiceInfo({type_!r}, {name!r}) {'was built' if built else 'was refused'}, the "
+                                 f"documented rules {'reject' if built else 'accept'} the name", "replay": {"kind": "name"},
+                         "signature": {"check": "constructor"}}, "mismatch")
     return None, f"{want}/{outcome}"
 
 
